@@ -13,3 +13,37 @@ impl VClone for Expr { #[verifier::external_body] fn vclone(&self) -> (r: Self) 
 pub fn str_to_string(s: &str) -> (r: String) ensures r@ == s@ { unimplemented!() }
 #[verifier::external_body]
 pub fn string_eq_str(a: &String, b: &str) -> (r: bool) ensures r == (a@ == b@) { unimplemented!() }
+
+impl VClone for String { #[verifier::external_body] fn vclone(&self) -> (r: Self) { unimplemented!() } }
+impl VClone for Ty { #[verifier::external_body] fn vclone(&self) -> (r: Self) { unimplemented!() } }
+#[verifier::external_body]
+pub fn vec_take<T>(v: &mut Vec<T>) -> (r: Vec<T>) ensures r@ == old(v)@, final(v)@ == Seq::<T>::empty() { unimplemented!() }   // rule vec_retain
+impl Expr { #[verifier::external_body] pub fn get_ty(&self) -> (r: Ty) { unimplemented!() } }
+impl Pat { #[verifier::external_body] pub fn get_ty(&self) -> (r: Ty) { unimplemented!() } }
+
+// ---- move_variable_patterns: a column whose pattern is a variable binds that variable to the COLUMN's scrutinee variable ----
+pub open spec fn is_var_col(c: Column) -> bool { c.pat is PVar }
+pub open spec fn is_wild_col(c: Column) -> bool { c.pat is PWild }
+// the columns that remain: those that still test something, in their original order
+pub open spec fn kept_cols(cs: Seq<Column>, n: int) -> Seq<Column>
+    decreases n,
+{
+    if n <= 0 || n > cs.len() { Seq::empty() }
+    else if is_var_col(cs[n - 1]) || is_wild_col(cs[n - 1]) { kept_cols(cs, n - 1) }
+    else { kept_cols(cs, n - 1).push(cs[n - 1]) }
+}
+// `body` is `let <pattern variable> = <column variable>; inner` (as a two-expression block)
+pub open spec fn binds_col(body: Expr, c: Column, inner: Expr) -> bool {
+    body matches Expr::EBlock { exprs, ty: _ } && exprs@.len() == 2 && exprs@[1] == inner
+    && (exprs@[0] matches Expr::ELet { pat, value, ty: _ }
+        && (pat matches Pat::PVar { name, ty: _, astptr: _ } && c.pat matches Pat::PVar { name: n2, ty: _, astptr: _ } && name@ == n2@)
+        && (*value matches Expr::EVar { name: vn, ty: _, astptr: _ } && vn@ == c.var@))
+}
+// the body after the first n columns were processed: one binding per variable column, the LATER column outermost
+pub open spec fn wrapped(body: Expr, cs: Seq<Column>, n: int, body0: Expr) -> bool
+    decreases n,
+{
+    if n <= 0 || n > cs.len() { body == body0 }
+    else if is_var_col(cs[n - 1]) { exists|inner: Expr| #[trigger] binds_col(body, cs[n - 1], inner) && wrapped(inner, cs, n - 1, body0) }
+    else { wrapped(body, cs, n - 1, body0) }
+}
